@@ -26,7 +26,8 @@ RULE = ("case = strategy (6 + FunctionRFA with suppliers returning float / 0-d a
         " Round-6 classes: any RuntimeWarning emitted while answering ordinary finite input is a violation (what a caller running with warnings as errors or numpy.seterr(all='raise') would get instead of a result)."
         " Round-7 classes: the abscissae in any container (also collections.deque, array.array, byte-swapped, negative stride)."
         " Round-8 classes: sampling functions that are objects (numpy.poly1d of degree 0 - falsy - and 2, a callable whose truth value is False); strategies as user classes derived from the library's (a keyword of their own / pass-through constructors)."
-        " Round-9 classes: sampling functions that are finite everywhere but raise overflow / divide flags on the way (steep logistic, logarithm with a floor); huge sizes also between 2**15 and 2**16.")
+        " Round-9 classes: sampling functions that are finite everywhere but raise overflow / divide flags on the way (steep logistic, logarithm with a floor); huge sizes also between 2**15 and 2**16."
+        " Round-10 classes: the request served just before asked for equal abscissae whose zero has the other sign.")
 REQUIRED_MONITORS = ["rfa_post", "c04:reject"]
 ASSUMPTIONS = ["x strictly increasing and finite, y finite, strategy parameters in the documented ranges"]
 NSHARDS = 16
